@@ -17,6 +17,7 @@ any time stamps (equal, decreasing) — by induction over the history.
 import Rs1090.Proofs.Snapshot
 import Rs1090.Proofs.SnapshotView
 import Rs1090.Proofs.Pipeline
+import Rs1090.Proofs.PipelineRefs
 import Rs1090.Proofs.SnapshotWriters
 import Rs1090.Proofs.SnapshotKeyed
 import Rs1090.Props.C06
@@ -503,6 +504,208 @@ example : (entryOf "40058b" (runPipeline Gates.source dist0 none [⟨1, fEven⟩
   decide +kernel
 
 end Pipeline
+
+/-! ## The pipeline stage with jet1090's SENSORS: per-sensor references, `--update-position`
+
+`runPipelineS g dist u refs h` (Model/PipelineRefs.lean) is the loop of `main` on a history of de-duplicated records
+`RcvS` = (time stamp, frame, serials of the metadata entries): the reference handed to `decode_position` is
+`references[serial of the FIRST metadata entry]`; `u` = `--update-position`: the closure `alt < 5000` is passed, and the
+DF17 arm writes the (possibly replaced) reference copy back under EVERY serial of the record.  One aircraft map.
+
+* For EVERY `u`: the loop is C12's frame-level table of the records annotated with the positions it attaches
+  (`pipelineS_eq_runFrames`), so keys / one entry / count / first and last seen / provenance hold, and every column other
+  than latitude / longitude of an aircraft's entry is the same with or without the other aircraft's records
+  (`pipelineS_fields_noninterference`).
+* `u = false` (references fixed per sensor): the whole entry, position included, is the same with or without the other
+  aircraft's records (`pipelineS_noninterference`): `decode_position` reads the aircraft's own cache entry and the
+  reference of the record's own first sensor — the lemmas behind `Props.C06.noninterference_from`
+  (`decodePosition_local`, `decodePosition_frame`) lifted to a reference that varies per record.
+* `u = true`: position provenance still holds (`pipelineS_position_provenance`: a held latitude / longitude was attached
+  by `decode_position` to one of the aircraft's OWN records); the clause that FAILS is non-interference of the position
+  columns: `pipelineS_update_interference` (a surface report of one aircraft is decoded against a reference that a low
+  aircraft moved) — the recorded finding C06-update-reference-moves-surface-reference seen from the table, by design of the
+  option.  `update_copies_reference_across_sensors`: the write-back loop also copies the first sensor's reference over
+  the other sensors of the record when nothing was updated. -/
+
+section Sensors
+open Rs1090 Rs1090.Model Rs1090.Model.Message Rs1090.Model.SnapshotView Rs1090.Proofs.SnapshotView
+open Rs1090.Model.Cpr Rs1090.Model.CprState Rs1090.Model.Pipeline Rs1090.Proofs.Pipeline
+open Rs1090.Model.PipelineRefs Rs1090.Proofs.PipelineRefs
+
+variable (g : Gates) (dist : Pos → Pos → Rat) (u : Bool) (refs : Refs)
+
+/-- **The loop with sensors is the composition**: table = frame-level table of the records annotated with the positions
+    the loop's position step attaches (threading aircraft map AND references), for `--update-position` on or off. -/
+theorem pipelineS_eq_runFrames (h : List RcvS) :
+    runPipelineS g dist u refs h = runFrames (annotS g dist u Cache.empty refs h) :=
+  runPipelineS_eq g dist u refs h
+
+/-- the annotation changes neither frames, nor order, nor time stamps -/
+theorem annotS_forget (c : Cache) (h : List RcvS) :
+    (annotS g dist u c refs h).map (fun y => (y.ts, y.frame)) = h.map (fun x => (tsU64 x.t, x.frame)) :=
+  Rs1090.Proofs.PipelineRefs.annotS_forget g dist u h c refs
+
+/-- **Keys are the addresses the frames show**, whatever the sensors and `--update-position`. -/
+theorem pipelineS_keys_are_addresses (k : Addr) (h : List RcvS) :
+    ((entryOf k (runPipelineS g dist u refs h)).isSome ↔ ∃ x, x ∈ h ∧ ShowsIcao24 x.frame k) ∧
+    (∀ e, entryOf k (runPipelineS g dist u refs h) = some e → e.icao24 = k) := by
+  rw [pipelineS_eq_runFrames]
+  obtain ⟨h1, h2⟩ := frames_keys_are_addresses k (annotS g dist u Cache.empty refs h)
+  exact ⟨h1.trans (exists_frame_iff_of_frames (fun f => ShowsIcao24 f k) _ h (annotS_frames g dist u h _ _)), h2⟩
+
+theorem pipelineS_one_entry_per_address (h : List RcvS) : (keys (runPipelineS g dist u refs h)).Nodup := by
+  rw [pipelineS_eq_runFrames]; exact frames_one_entry_per_address _
+
+/-- **Message count** = number of records whose frame shows `k`. -/
+theorem pipelineS_count_eq (k : Addr) (h : List RcvS) (e : Entry)
+    (he : entryOf k (runPipelineS g dist u refs h) = some e) : e.count = (ownS k h).length := by
+  rw [pipelineS_eq_runFrames] at he
+  rw [frames_count_eq k _ e he]
+  simpa using congrArg List.length (ownFrames_annotS_forget g dist u k h Cache.empty refs)
+
+/-- **First / last seen** = `timestamp as u64` of the first / the last received of `k`'s records. -/
+theorem pipelineS_first_last_seen (k : Addr) (h : List RcvS) (e : Entry)
+    (he : entryOf k (runPipelineS g dist u refs h) = some e) :
+    (ownS k h).head?.map (fun x => tsU64 x.t) = some e.firstseen ∧
+    (ownS k h).getLast?.map (fun x => tsU64 x.t) = some e.lastseen := by
+  rw [pipelineS_eq_runFrames] at he
+  obtain ⟨h1, h2⟩ := frames_first_last_seen k _ e he
+  have hf := congrArg (List.map Prod.fst) (ownFrames_annotS_forget g dist u k h Cache.empty refs)
+  simp only [List.map_map, Function.comp_def] at hf
+  have e1 := congrArg List.head? hf
+  have e2 := congrArg List.getLast? hf
+  rw [List.head?_map, List.head?_map] at e1
+  rw [List.getLast?_map, List.getLast?_map] at e2
+  exact ⟨e1.symm.trans h1, e2.symm.trans h2⟩
+
+/-- **Provenance** (every column, every `u`): a held value is carried, for that quantity, by the record of one of `k`'s
+    own receptions as the loop handed it to `update_snapshot` (i.e. with the position the loop attached to it). -/
+theorem pipelineS_provenance (k : Addr) (h : List RcvS) (e : Entry)
+    (he : entryOf k (runPipelineS g dist u refs h) = some e) (f : Field) (v : Val) (hv : entryField e f = some v) :
+    ∃ y, y ∈ annotS g dist u Cache.empty refs h ∧ ShowsIcao24 y.frame k ∧ v ∈ carried y.record f := by
+  rw [pipelineS_eq_runFrames] at he
+  exact frames_provenance k _ e he f v hv
+
+/-- **Non-interference of everything but the position, with or without `--update-position`**: the entry of `k` with its
+    latitude / longitude blanked (`noPos`) — address, first / last seen, count and the 14 other columns — is the same
+    after any interleaving with any sensors as after `k`'s own records alone. -/
+theorem pipelineS_fields_noninterference (k : Addr) (h : List RcvS) :
+    (entryOf k (runPipelineS g dist u refs h)).map noPos
+      = (entryOf k (runPipelineS g dist u refs (ownS k h))).map noPos := by
+  rw [pipelineS_eq_runFrames, pipelineS_eq_runFrames, frames_noninterference k (annotS g dist u Cache.empty refs h)]
+  apply noPos_entry_of_forget
+  rw [ownFrames_annotS_forget, Rs1090.Proofs.PipelineRefs.annotS_forget]
+
+/-- … it does not even depend on `--update-position` or on the references -/
+theorem pipelineS_fields_independent_of_references (u' : Bool) (refs' : Refs) (k : Addr) (h : List RcvS) :
+    (entryOf k (runPipelineS g dist u refs h)).map noPos = (entryOf k (runPipelineS g dist u' refs' h)).map noPos := by
+  rw [pipelineS_eq_runFrames, pipelineS_eq_runFrames]
+  apply noPos_entry_of_forget
+  rw [Rs1090.Proofs.PipelineRefs.annotS_forget, Rs1090.Proofs.PipelineRefs.annotS_forget]
+
+/-- **Non-interference of the whole stage with per-sensor references** (`--update-position` off).  The entry of `k`
+    — positions included — after any interleaving of records heard by any sensors is the entry after `k`'s own records
+    alone (each with its own sensors). -/
+theorem pipelineS_noninterference (k : Addr) (h : List RcvS) :
+    entryOf k (runPipelineS g dist false refs h) = entryOf k (runPipelineS g dist false refs (ownS k h)) := by
+  obtain ⟨A, hA⟩ := exists_cpr_addressS k
+  rw [pipelineS_eq_runFrames, pipelineS_eq_runFrames, frames_noninterference k (annotS g dist false Cache.empty refs h),
+    ownFrames_annotS_fixed g dist refs k A hA h Cache.empty Cache.empty rfl]
+
+theorem pipelineS_noninterference' (k : Addr) (h₁ h₂ : List RcvS) (h : ownS k h₁ = ownS k h₂) :
+    entryOf k (runPipelineS g dist false refs h₁) = entryOf k (runPipelineS g dist false refs h₂) := by
+  rw [pipelineS_noninterference g dist refs k h₁, pipelineS_noninterference g dist refs k h₂, h]
+
+/-- **Position provenance, with or without `--update-position`**: the latitude (longitude) the entry of `k` holds is
+    the canonical text of a position `p` that C06's `decodePosition` attached to one of `k`'s OWN records `x` of the
+    history — called with the aircraft map and the references the loop had reached before `x` (`stateS` of the prefix)
+    and the reference of `x`'s first serial. -/
+theorem pipelineS_position_provenance (k : Addr) (h : List RcvS) (e : Entry)
+    (he : entryOf k (runPipelineS g dist u refs h) = some e) :
+    (∀ v, e.latitude = some v → ∃ pre x post r p, h = pre ++ x :: post ∧ ShowsIcao24 x.frame k ∧ callOf x = some r ∧
+      (decodePosition g dist (updOf u) ((stateS g dist u Cache.empty refs pre).1,
+        (stateS g dist u Cache.empty refs pre).2 (x.serials.headD 0)) r).2 = some p ∧ v = ratText p.lat) ∧
+    (∀ v, e.longitude = some v → ∃ pre x post r p, h = pre ++ x :: post ∧ ShowsIcao24 x.frame k ∧ callOf x = some r ∧
+      (decodePosition g dist (updOf u) ((stateS g dist u Cache.empty refs pre).1,
+        (stateS g dist u Cache.empty refs pre).2 (x.serials.headD 0)) r).2 = some p ∧ v = ratText p.lon) := by
+  constructor
+  · intro v hv
+    obtain ⟨y, hy, hs, hc⟩ := pipelineS_provenance g dist u refs k h e he .latitude v hv
+    have hp := record_lat y v hc
+    cases hq : y.pos with
+    | none => rw [hq] at hp; cases hp
+    | some q =>
+      rw [hq] at hp
+      obtain ⟨pre, x, post, p, e1, hf, hstep, rfl⟩ := mem_annotS_pos g dist u h _ _ y q hy hq
+      obtain ⟨r, hr, hd⟩ := posStep_some g dist u _ _ x p hstep
+      exact ⟨pre, x, post, r, p, e1, hf ▸ hs, hr, hd, (Option.some.inj hp).symm⟩
+  · intro v hv
+    obtain ⟨y, hy, hs, hc⟩ := pipelineS_provenance g dist u refs k h e he .longitude v hv
+    have hp := record_lon y v hc
+    cases hq : y.pos with
+    | none => rw [hq] at hp; cases hp
+    | some q =>
+      rw [hq] at hp
+      obtain ⟨pre, x, post, p, e1, hf, hstep, rfl⟩ := mem_annotS_pos g dist u h _ _ y q hy hq
+      obtain ⟨r, hr, hd⟩ := posStep_some g dist u _ _ x p hstep
+      exact ⟨pre, x, post, r, p, e1, hf ▸ hs, hr, hd, (Option.some.inj hp).symm⟩
+
+/-! ### the clause that fails with `--update-position`, and non-vacuity
+
+`8D40058B580F81375147EFB216ED` / `8D40058B580F84A87F402D5909E3`: an even / odd airborne pair of 40058b at 2000 ft
+(the pair of the examples above with the altitude field rewritten); `8D4CA2D4381001D4C0753007E97E`: a surface position
+report of 4ca2d4 (even, lat_cpr 60000, lon_cpr 30000). -/
+
+private def fLowEven : List Nat := [0x8D,0x40,0x05,0x8B,0x58,0x0F,0x81,0x37,0x51,0x47,0xEF,0xB2,0x16,0xED]
+private def fLowOdd : List Nat := [0x8D,0x40,0x05,0x8B,0x58,0x0F,0x84,0xA8,0x7F,0x40,0x2D,0x59,0x09,0xE3]
+private def fSurf : List Nat := [0x8D,0x4C,0xA2,0xD4,0x38,0x10,0x01,0xD4,0xC0,0x75,0x30,0x07,0xE9,0x7E]
+private def dist1 : Pos → Pos → Rat := fun _ _ => 0
+private def noRefs : Refs := fun _ => none
+
+/-- the closure `alt < 5000` answers true on the 2000 ft report, and the loop makes the call -/
+example : callOf ⟨1, fLowEven, [1]⟩
+    = some { ts := 1, addr := 0x40058B, kind := .airborne, msg := ⟨.even, 39848, 83951⟩, low := true } := by
+  decide +kernel
+
+/-- **The failing clause: with `--update-position` the position columns of an aircraft depend on the other aircraft.**
+    One sensor without reference.  4ca2d4 sends one surface report: alone it gets no position (no reference, no earlier
+    position).  After the low aircraft 40058b has been located (its fix becomes the sensor's reference), the same
+    report of 4ca2d4 is decoded against that fix and its entry holds (50.186645508, 5.278930664).  Without the option
+    (`pipelineS_noninterference`) both runs give no position.  This is the table-side view of the recorded finding
+    C06-update-reference-moves-surface-reference (the shared reference is the design of the option), not a new one. -/
+theorem pipelineS_update_interference :
+    (entryOf "4ca2d4" (runPipelineS Gates.source dist1 true noRefs
+        [⟨1, fLowEven, [1]⟩, ⟨3/2, fLowOdd, [1]⟩, ⟨2, fSurf, [1]⟩])).map (fun e => (e.latitude, e.longitude))
+      = some (some "50.186645508", some "5.278930664") ∧
+    (entryOf "4ca2d4" (runPipelineS Gates.source dist1 true noRefs
+        (ownS "4ca2d4" [⟨1, fLowEven, [1]⟩, ⟨3/2, fLowOdd, [1]⟩, ⟨2, fSurf, [1]⟩]))).map (fun e => (e.latitude, e.longitude))
+      = some (none, none) ∧
+    (entryOf "4ca2d4" (runPipelineS Gates.source dist1 false noRefs
+        [⟨1, fLowEven, [1]⟩, ⟨3/2, fLowOdd, [1]⟩, ⟨2, fSurf, [1]⟩])).map (fun e => (e.latitude, e.longitude))
+      = some (none, none) := by
+  decide +kernel
+
+/-- **The write-back copies references across sensors.**  With `--update-position`, a DF17 position record heard by
+    sensors 1 and 2 stores sensor 1's reference (the first metadata entry) under serial 2 as well — here a HIGH aircraft
+    (39000 ft: the closure answers false, `decode_position` leaves the reference alone), so sensor 2's own reference
+    (10, 20) is replaced by sensor 1's (49.5, 6) although nothing was "updated"; without the option it is kept. -/
+theorem update_copies_reference_across_sensors :
+    let refs : Refs := Refs.ofList [(1, some ⟨99/2, 6⟩), (2, some ⟨10, 20⟩)]
+    (runS Gates.source dist1 true refs [⟨1, fEven, [1, 2]⟩]).refs 2 = some ⟨99/2, 6⟩ ∧
+    (runS Gates.source dist1 false refs [⟨1, fEven, [1, 2]⟩]).refs 2 = some ⟨10, 20⟩ := by
+  decide +kernel
+
+/-- per-sensor references matter: the same surface report gets the position next to the reference of the sensor
+    listed FIRST in its metadata -/
+example :
+    let refs : Refs := Refs.ofList [(1, some ⟨50, 5⟩), (2, none)]
+    (entryOf "4ca2d4" (runPipelineS Gates.source dist1 false refs [⟨2, fSurf, [1, 2]⟩])).map (·.latitude)
+      = some (some "50.186645508") ∧
+    (entryOf "4ca2d4" (runPipelineS Gates.source dist1 false refs [⟨2, fSurf, [2, 1]⟩])).map (·.latitude)
+      = some none := by
+  decide +kernel
+
+end Sensors
 
 /-! ### Key-path provenance (audit B, finding 3)
 
